@@ -43,6 +43,18 @@ CLAIMS = {
              "attribute-symmetric serde for every ADT reachable from Bytecode, the capture-injection prologue shape, structural re-emission of "
              "cached module values. Equality of results across the four packaging routes is not decided.",
         design="§3 C10", technique="static analysis: HIR sibling agreement, derive/attribute census, MIR value-source slices"),
+    "C09": dict(
+        text="Decides shape conditions of the assignability/overlap relation: quantifier polarity per arm and union mode, callable variance, the "
+             "121-pair variant coverage matrix (no same-kind pair falls to `_ => false`), the direction of the narrowing fallbacks (never/empty only "
+             "under the right test in the right argument order), and that the relation is closed (no unreviewed helper, fresh coinductive state per "
+             "query). The coinductive relation's soundness over all closed contractive types is NOT decided.",
+        design="§3 C09", technique="static analysis: HIR pattern-matrix evaluation over variant pairs, quantifier/variance shape checks, MIR guarded reachability"),
+    "C11": dict(
+        text="Decides the ordering/commit clauses behind 'a rejected line leaves the session exactly as it was' and the alignment plumbing: session "
+             "fields and the persistent process are touched only on the success edge of the compile `?`, compaction precedes compilation and "
+             "re-indexes bindings and locals by one permutation, the compiler mutates clones, resume feeds the previous result, persistent "
+             "top-level locals survive frame exit. Per-line value equivalence with a single program is NOT decided.",
+        design="§3 C11", technique="static analysis: MIR dominance on the Continue edge of `?`, argument provenance and value-source slices"),
     "C06": dict(
         text="Root-write audit over the resolved MIR of the whole workspace: every mutation of a GC root (derived from the Process/SelectState ADTs) "
              "must be paired with retain/release of the same value group on every non-error path, be a root-to-root move, insert a heap-free value, "
